@@ -1,11 +1,7 @@
 //! C07 — user-supplied strings can never add a command or change list framing.
 //! Validity predicate on names / arguments / line counts + rollback model (twin command).
 
-use std::{
-    collections::hash_map::DefaultHasher,
-    hash::{Hash, Hasher},
-    time::Duration,
-};
+use std::time::Duration;
 
 use bytes::{BufMut, BytesMut};
 use mpd_client::{
@@ -152,10 +148,9 @@ fn edit_distance(a: &str, b: &str) -> usize {
     prev[b.len()]
 }
 
-fn hash_of(c: &Command) -> u64 {
-    let mut h = DefaultHasher::new();
-    c.hash(&mut h);
-    h.finish()
+/// under three hashers (see props/c20.rs)
+fn hash_of(c: &Command) -> (u64, u64, u64) {
+    crate::props::c20::h(c)
 }
 
 pub fn check(case: &Case) -> CaseResult {
